@@ -1,3 +1,136 @@
 import Sheens.Timers
+import Sheens.Proofs.TimersInv
 
-/-! Property C17 — theorems (in progress). -/
+/-!
+# Property C17 — timers
+
+Over the transition system of `Sheens/Timers.lean`, for both implementations (`rep = false`:
+mcrew, `Add` on a pending id is refused; `rep = true`: sio, it replaces the pending timer), for
+**all** traces: every sequence of make/cancel requests (from the requester or from inside the
+handler of a firing message — the handler's requests are ordinary actions that follow the firing),
+every interleaving with the timer goroutines' steps, every advance of the clock.
+
+Real time (`time.NewTimer` not firing early, the scheduler eventually running a due goroutine) is
+trusted; "never early" is proved against the logical clock.
+-/
+
+namespace Sheens.C17
+
+open Timers
+
+def Reachable (rep : Bool) (s : St) : Prop := ∃ tr, run rep St.init tr = some s
+
+/-- every reachable state satisfies the inductive invariant of `Sheens/Proofs/TimersInv.lean` -/
+theorem Reachable.inv {rep : Bool} {s : St} (h : Reachable rep s) : Inv s := by
+  obtain ⟨tr, hr⟩ := h
+  exact Inv.run tr Inv.init hr
+
+/-- An accepted timer fires at most once. -/
+theorem fires_at_most_once (rep : Bool) (s : St) (h : Reachable rep s) : firedOnce s = true := by
+  exact h.inv.firedOnce
+
+/-- Never before its due time. -/
+theorem never_early (rep : Bool) (s : St) (h : Reachable rep s) : neverEarly s = true := by
+  exact h.inv.neverEarly
+
+/-- A timer whose cancellation succeeded (or that was replaced) never fires. -/
+theorem never_after_cancel (rep : Bool) (s : St) (h : Reachable rep s) : neverBoth s = true := by
+  exact h.inv.neverBoth
+
+/-- The timers reported as pending are exactly those accepted and not yet fired or cancelled. -/
+theorem table_is_pending (rep : Bool) (s : St) (h : Reachable rep s) : tableIsPending s = true := by
+  exact h.inv.tableIsPending
+
+/-- Every pending timer has its goroutine parked (so it can still fire or be cancelled), and ids in
+    the table are distinct. -/
+theorem table_live (rep : Bool) (s : St) (h : Reachable rep s) :
+    tableLive s = true ∧ tableIdsDistinct s = true := by
+  exact ⟨h.inv.tableLive, h.inv.tableIdsDistinct⟩
+
+/-- A timer's id is free for reuse from the moment it fires: right after the firing step the id is
+    not in the table, so making a timer under it is accepted. -/
+theorem id_free_after_fire (rep : Bool) (s s' : St) (g : Gen) (h : Reachable rep s)
+    (hs : step rep s (.due g) = some s')
+    (hf : g ∈ s'.fired.map (·.1)) (hn : g ∉ s.fired.map (·.1)) :
+    ∃ p, procOf g s.procs = some p ∧ lookupT p.id s'.table = none ∧
+      ∀ d, (step rep s' (.add p.id d)).isSome = true := by
+  have _ := h   -- reachability is not needed for this one
+  obtain ⟨p, hp, _, _, ⟨hl, e⟩ | ⟨_, e⟩⟩ := step_due hs
+  · subst e
+    have hl' : lookupT p.id (fireSt g p s).table = none := lookupT_eraseT_self p.id s.table
+    refine ⟨p, hp, hl', fun d => ?_⟩
+    rw [step_add_none hl']; rfl
+  · subst e
+    exact absurd hf hn
+
+/-- A timer made under any id (re-created by a handler or not) is in the table under that id, hence
+    cancellable, until it fires or is cancelled. -/
+theorem accepted_is_cancellable (rep : Bool) (s s' : St) (id : Tid) (d : Nat)
+    (hs : step rep s (.add id d) = some s') :
+    lookupT id s'.table = some s.nextGen ∧ (step rep s' (.rem id)).isSome = true := by
+  have key : ∀ s0 : St, lookupT id (freshSt id d s0).table = some s0.nextGen := by
+    intro s0; simp [freshSt, lookupT]
+  rcases step_add hs with ⟨_, e⟩ | ⟨old, _, _, e⟩
+  · subst e
+    refine ⟨key s, ?_⟩
+    rw [step_rem_some (key s)]; rfl
+  · subst e
+    refine ⟨key (remSt id old s), ?_⟩
+    rw [step_rem_some (key (remSt id old s))]; rfl
+
+/-- If not cancelled it fires once due: a pending timer's goroutine is parked, and as soon as the
+    clock has reached the due time its due step is enabled and fires it. -/
+theorem pending_fires_when_due (rep : Bool) (s : St) (g : Gen) (h : Reachable rep s)
+    (hp : g ∈ pendingGens s) :
+    ∃ p, procOf g s.procs = some p ∧ p.phase = .waiting ∧
+      (p.due ≤ s.now → ∃ s', step rep s (.due g) = some s' ∧ g ∈ s'.fired.map (·.1)) := by
+  have hi := h.inv
+  obtain ⟨id, hm⟩ := mem_pendingGens.mp hp
+  obtain ⟨p, hpo, hpi, hpw⟩ := hi.live id g hm
+  refine ⟨p, hpo, hpw, fun hd => ⟨fireSt g p s, ?_, ?_⟩⟩
+  · exact step_due_fire hpo hpw hd (hpi ▸ lookupT_of_mem hi.ids hm)
+  · simp [fireSt]
+
+/-- A cancelled (or superseded) timer's goroutine never fires it: its due step, if taken, only
+    retires the goroutine. -/
+theorem cancelled_due_is_silent (rep : Bool) (s s' : St) (g : Gen) (h : Reachable rep s)
+    (hc : g ∈ s.cancelled) (hs : step rep s (.due g) = some s') : s'.fired = s.fired := by
+  obtain ⟨p, _, _, _, ⟨hl, _⟩ | ⟨_, e⟩⟩ := step_due hs
+  · exact absurd hc (h.inv.tabNC p.id g (lookupT_some_mem hl))
+  · subst e; rfl
+
+/-- Restart (sio): re-arming the published table keeps the pending set and every due time, and the
+    restarted service satisfies the same invariants. -/
+theorem restart_resumes (s : St) (h : Reachable true s) :
+    pendingGens (restart s) = pendingGens s ∧
+    (∀ g ∈ pendingGens s, ∀ p, procOf g s.procs = some p →
+        ∃ p', procOf g (restart s).procs = some p' ∧ p'.due = p.due ∧ p'.id = p.id ∧ p'.phase = .waiting) ∧
+    tableLive (restart s) = true ∧ tableIsPending (restart s) = true := by
+  have hi := h.inv
+  have hall : ∀ id g, (id, g) ∈ s.table → ∃ p, procOf g s.procs = some p ∧ p.id = id := by
+    intro id g hm
+    obtain ⟨p, hp, hpi, _⟩ := hi.live id g hm
+    exact ⟨p, hp, hpi⟩
+  refine ⟨rfl, ?_, ?_, ?_⟩
+  · intro g hg p hp
+    obtain ⟨id, hm⟩ := mem_pendingGens.mp hg
+    exact ⟨{ gen := g, id := p.id, due := p.due, phase := .waiting },
+      by rw [restart_procs]; exact procOf_restartProcs s.table hall hm hp, rfl, rfl, rfl⟩
+  · unfold tableLive
+    rw [List.all_eq_true]
+    rintro ⟨id, g⟩ hm
+    obtain ⟨p, hp, hpi⟩ := hall id g hm
+    simp only [restart_procs, procOf_restartProcs s.table hall hm hp]
+    simp [hpi]
+  · unfold tableIsPending
+    rw [Bool.and_eq_true, List.all_eq_true, List.all_eq_true]
+    constructor
+    · intro g hg
+      have hg' : g ∈ pendingGens s := hg
+      simp [restart, pendingGens] at hg' ⊢
+      exact hg'
+    · intro g hg
+      have hg' : g ∈ pendingGens s := hg
+      simpa [restart] using hg'
+
+end Sheens.C17
